@@ -294,6 +294,35 @@ func vc_C03_lipschitz_extrude() {
 	}
 }
 
+// Cut3D / Cut2D: max(operand, signed distance to the cutting plane / line). The plane term is
+// 1-Lipschitz because the stored normal is a unit vector, for every non-zero normal the caller passes.
+func vc_C03_lipschitz_cut() {
+	vfTimeouts(3000, 20000)
+	if vfCase("dim", 2) == 0 {
+		a := vfNewLeaf3("a", vfKL)
+		pt, n := vfPoint3("a0"), v3.Vec{X: vfBounded("n.x"), Y: vfBounded("n.y"), Z: vfBounded("n.z")}
+		n2 := n.X*n.X + n.Y*n.Y + n.Z*n.Z
+		vfAssume(vfAnd(n2 >= 0.01, n2 <= 100))
+		vfLip3(Cut3D(a, pt, n), "Cut3D", []*vfLeaf3{a}, nil, func(p, q v3.Vec, D float64) []bool {
+			u := n.Normalize()
+			uu := vfOpaque(u.X*u.X + u.Y*u.Y + u.Z*u.Z)
+			f1 := vfAnd(uu <= 1+1e-9, uu >= 1-1e-9)
+			vfAssert(f1, "lemma: the normalised plane normal has unit length")
+			d := p.Sub(q)
+			du := vfOpaque(d.X*u.X + d.Y*u.Y + d.Z*u.Z)
+			f2 := du*du <= D*D*uu
+			vfAssert(f2, "lemma: Cauchy-Schwarz for (p - q) . u")
+			return []bool{f1, f2, du == d.X*u.X+d.Y*u.Y+d.Z*u.Z}
+		})
+		return
+	}
+	a := vfNewLeaf2("a", vfKL)
+	pt, n := vfPoint2("a0"), v2.Vec{X: vfBounded("n.x"), Y: vfBounded("n.y")}
+	n2 := n.X*n.X + n.Y*n.Y
+	vfAssume(vfAnd(n2 >= 0.01, n2 <= 100))
+	vfLip2(Cut2D(a, pt, n), "Cut2D", []*vfLeaf2{a})
+}
+
 // C03 also covers the 2-D union (pruned evaluation must not overestimate the
 // distance) and the polygon primitive (exact sign on split lines): the
 // harnesses of C16 and C04 are registered under this property as well.
